@@ -565,8 +565,21 @@ func (h *c01Hist) compare(tag string) bool {
 						if inRib[k] {
 							where = "still-in-rib"
 						}
+						p.sp.mu.Lock()
+						over := false
+						for ok := range p.sp.overSent {
+							if ok.String() == k {
+								over = true
+							}
+						}
+						p.sp.mu.Unlock()
 						if h.looped[p.spec.Addr][pfx] {
 							setClass("stale-path:after-looped-version", 30)
+						} else if over {
+							// the held path was part of a set sent beyond send-max (the receiver saw more than
+							// send-max paths for the prefix when it arrived): consequence of the known
+							// full-re-advertisement defect, whose paths are not all recorded as sent
+							setClass("stale-path:after-over-send-max", 25)
 						} else if phase != "incremental" {
 							// right after a full re-advertisement the known send-max defect (everything is
 							// sent, the held-back marks stay) also leaves paths whose later withdrawal is
